@@ -438,6 +438,9 @@ def _reach_alias(classes: list[dict]) -> dict:
     return out
 
 
+DUMP_METHODS = ("model_dump", "model_dump_json", "model_dump_mcp")
+
+
 def _const_bool(e):
     return isinstance(e, ast.Constant) and e.value is True
 
@@ -454,11 +457,23 @@ def find_dump_sites(src: Path, classes: list[dict]):
         for n in ast.walk(mod.tree):
             for ch in ast.iter_child_nodes(n):
                 parents[ch] = n
+        # indirect form:  m = getattr(x, "model_dump_json", None) ... m(exclude_none=True)
+        bound = {}
+        for n in ast.walk(mod.tree):
+            if (isinstance(n, ast.Assign) and len(n.targets) == 1 and isinstance(n.targets[0], ast.Name)
+                    and isinstance(n.value, ast.Call) and isinstance(n.value.func, ast.Name) and n.value.func.id == "getattr"
+                    and len(n.value.args) >= 2 and isinstance(n.value.args[1], ast.Constant)
+                    and n.value.args[1].value in DUMP_METHODS):
+                bound[n.targets[0].id] = (n.value.args[0], n.value.args[1].value)
         for call in ast.walk(mod.tree):
-            if not (isinstance(call, ast.Call) and isinstance(call.func, ast.Attribute)
-                    and call.func.attr in ("model_dump", "model_dump_json", "model_dump_mcp")):
+            if not isinstance(call, ast.Call):
                 continue
-            recv = call.func.value
+            if isinstance(call.func, ast.Attribute) and call.func.attr in DUMP_METHODS:
+                recv, method = call.func.value, call.func.attr
+            elif isinstance(call.func, ast.Name) and call.func.id in bound:
+                recv, method = bound[call.func.id]
+            else:
+                continue
             # enclosing function / class chain
             chain, n = [], call
             fn = None
@@ -510,7 +525,7 @@ def find_dump_sites(src: Path, classes: list[dict]):
                 forwards = True  # flags computed by the caller
             site = {
                 "file": str(mod.path.relative_to(src_root)), "line": call.lineno, "func": func,
-                "method": call.func.attr, "recv": ast.unparse(recv), "byAlias": by_alias, "exclNone": excl,
+                "method": method, "recv": ast.unparse(recv), "byAlias": by_alias, "exclNone": excl,
                 "forwards": forwards or internal, "dynamic": bool(dynamic_kw),
                 "classes": sorted(ids) if ids is not None else [], "resolved": ids is not None,
                 "classHasAlias": bool(ids) and any(reach.get(i, False) for i in ids),
